@@ -504,9 +504,16 @@ func (w *World) externKeys() []string {
 	return out
 }
 
+// normObl drops the instruction rank from a call-site obligation name ("#call.101:Update.assert.1" ->
+// "#call:Update.assert.1"): the rank shifts when unrelated code in the same function is edited, the callee and the
+// assertion ordinal do not. A known finding is thereby keyed by function, callee and clause.
+var callRankRe = regexp.MustCompile(`#call\.\d+:`)
+
+func normObl(n string) string { return callRankRe.ReplaceAllString(n, "#call:") }
+
 func matchKnown(ks []KnownFinding, prop, name string) *KnownFinding {
 	for i := range ks {
-		if ks[i].Property == prop && ks[i].Status == "known" && ks[i].Obligation == name {
+		if ks[i].Property == prop && ks[i].Status == "known" && normObl(ks[i].Obligation) == normObl(name) {
 			return &ks[i]
 		}
 	}
